@@ -39,12 +39,14 @@ from vlib import fixtures as F
 
 PID = "C04"
 LEVEL = "exploration"
-RULE = ("(i) exhaustive itertools.product of all operation sequences of length <= 3 (quick) / <= 4 "
-        "and <= 5 for three cells (thorough) over the 13-symbol alphabet {Activate, Revoke x4 reason "
-        "codes, Destroy, Encrypt, Decrypt, Sign, SignatureVerify, MAC, DeriveKey, Get-with-wrapping} "
-        "on one fresh object per cell (object type x usage mask in {none, all, only-b, all-but-b for "
-        "the use bits b}); (ii) Hypothesis histories (6-40 steps, several objects from "
-        "Register/Create/CreateKeyPair, random masks, all 7 revocation reason codes, engine "
+RULE = ("(i) exhaustive: itertools.product over the 13-symbol alphabet {Activate, Revoke x 4 reason "
+        "codes, Destroy, Encrypt, Decrypt, Sign, SignatureVerify, MAC, DeriveKey, Get-with-wrapping}, "
+        "all sequences of length 1..3 (quick: 37 cells) / 1..4 (thorough: the 47 cells whose use is "
+        "not ruled out by the object kind alone), 1..3 (thorough: the other 50 cells), 1..5 "
+        "(thorough: SymmetricKey/all), applied to one fresh object per cell = stored object type x "
+        "usage mask in {none, all, only-b, all-but-b for the seven use bits b}; (ii) random: "
+        "Hypothesis histories (6-40 steps, several objects from Register/Create/CreateKeyPair, "
+        "random masks, all 7 revocation reason codes, DeriveKey with 1-2 base objects, engine "
         "restarts, read-only noise).  non-trivial = the sequence contains an observed state change "
         "of an object followed by a cryptographic use of that object or by a second state change "
         "of it; distinct by (type, mask, sequence) spec hash")
@@ -269,8 +271,12 @@ class World(object):
             return {"op": "MAC", "uid": u, "params": {"alg": "HMAC_SHA256"}, "data": PLAIN}, [i], []
         if op == "DeriveKey":
             bases = [i] if aux is None or aux == i else [i, aux]
-            dp = {"params": {"hash": "SHA_256"}, "data": "0102"}
-            return {"op": "DeriveKey", "uids": [self.objs[b]["uid"] for b in bases], "method": "HASH",
+            # HASH takes either data or the keying object, HMAC (HKDF) takes both
+            method = "HASH" if var else "HMAC"
+            dp = {"params": {"hash": "SHA_256"}}
+            if method == "HMAC" and len(bases) == 1:
+                dp["data"] = "0102"
+            return {"op": "DeriveKey", "uids": [self.objs[b]["uid"] for b in bases], "method": method,
                     "attrs": [["Cryptographic Length", 128], ["Cryptographic Algorithm", "AES"],
                               ["Cryptographic Usage Mask", DERIVED_MASK]], "dp": dp}, bases, []
         if op == "GetWrapped":
@@ -288,8 +294,6 @@ class World(object):
         if op == "Noise:ModifyState":
             return {"op": "ModifyAttribute", "uid": u,
                     "attr": ["State", ["ACTIVE", "PRE_ACTIVE"][var % 2]]}, [i], []
-        if op == "Noise:ModifyName":
-            return {"op": "ModifyAttribute", "uid": u, "attr": ["Name", "renamed"]}, [i], []
         if op == "Noise:SetState20":
             return {"op": "SetAttribute", "uid": u,
                     "new": ["State", ["ACTIVE", "PRE_ACTIVE"][var % 2]]}, [i], []
@@ -465,6 +469,10 @@ def run_seq(spec):
 
 
 def trie_worker(otype, mlabel, maxdepth, first_ops):
+    """All sequences of itertools.product(first_ops, ALPHABET, ..., ALPHABET) (maxdepth symbols) and
+    all their non-empty prefixes, each exactly once: the product is generated in lexicographic
+    order, so the world only has to be rewound to the longest prefix shared with the previous
+    tuple (a trie walk)."""
     col = core.Collector(PID)
     mask = mask_of(mlabel)
     w = World()
@@ -474,13 +482,21 @@ def trie_worker(otype, mlabel, maxdepth, first_ops):
         if b0:
             col.record({"kind": "seq", "otype": otype, "mask": mask, "ops": []}, buckets=b0)
         cellcls = ["cell:%s/%s" % (otype, mlabel), "type:" + otype, "mask:" + mlabel]
-
-        def walk(prefix, info, ops_here):
-            snap = w.snapshot()
-            had_change, nt, succ = info
-            for op in ops_here:
+        snaps = [w.snapshot()]                   # snaps[k]: the world after prev[:k]
+        infos = [(False, False, frozenset())]     # (had a state change, non-trivial, uses that succeeded)
+        prev = ()
+        for seq in itertools.product(first_ops, *([ALPHABET] * (maxdepth - 1))):
+            p = 0
+            while p < len(prev) and prev[p] == seq[p]:
+                p += 1
+            del snaps[p + 1:]
+            del infos[p + 1:]
+            w.restore(snaps[p])
+            for k in range(p, maxdepth):
+                op = seq[k]
+                had_change, nt, succ = infos[k]
                 res = w.step(op, X)
-                ops = prefix + [op]
+                ops = list(seq[:k + 1])
                 spec = {"kind": "seq", "otype": otype, "mask": mask, "ops": ops}
                 nt2 = nt or (had_change and (op in USES or res["changed"]))
                 hc2 = had_change or res["changed"]
@@ -498,12 +514,11 @@ def trie_worker(otype, mlabel, maxdepth, first_ops):
                     col.bump("i_sequences_with_any_successful_use")
                 if res["changed"]:
                     col.bump("i_steps_changing_state")
-                if len(ops) < maxdepth:
-                    walk(ops, (hc2, nt2, succ2), ALPHABET)
-                w.restore(snap)
-
-        walk([], (False, False, frozenset()), first_ops)
-        col.bump("i_cells_x_first_ops", len(first_ops))
+                if k + 1 < maxdepth:
+                    snaps.append(w.snapshot())
+                    infos.append((hc2, nt2, succ2))
+            prev = seq
+        col.bump("i_jobs")
     finally:
         w.close()
     return col
@@ -548,49 +563,69 @@ def _kind_allows(otype, bit):
     return True      # MAC_GENERATE, DERIVE_KEY: the statement does not fix the kind
 
 
-def cells(tier):
+FIXED_KIND = [("SymmetricKey", "ENCRYPT"), ("SymmetricKey", "DECRYPT"), ("SymmetricKey", "WRAP_KEY"),
+              ("PrivateKey", "SIGN"), ("PublicKey", "VERIFY"), ("SymmetricKey", "MAC_GENERATE"),
+              ("SymmetricKey", "DERIVE_KEY")]
+
+
+def all_cells():
     out = []
     for t in TYPES:
-        if t == "OpaqueData":
-            out.append((t, "none"))      # no usage mask attribute on opaque objects
-            continue
         out.append((t, "none"))
+        if t == "OpaqueData":            # no usage mask attribute on opaque objects
+            continue
         out.append((t, "all"))
         for b in USE_BITS:
-            if tier == "thorough" or _kind_allows(t, b):
-                out.append((t, "only-" + b))
-                out.append((t, "allbut-" + b))
+            out.append((t, "only-" + b))
+            out.append((t, "allbut-" + b))
     return out
 
 
-DEEP_CELLS = [("SymmetricKey", "all"), ("PrivateKey", "all"), ("PublicKey", "all")]
+def _relevant(t, m):
+    """Cells in which, by the statement, the use matching the mask's bit is not ruled out by the
+    object kind alone (plus the none/all masks of every type)."""
+    if m in ("none", "all"):
+        return True
+    return _kind_allows(t, m.split("-", 1)[1])
+
+
+def plan(tier):
+    """[(otype, mask label, depth)]: every sequence of length 1..depth is enumerated for the cell."""
+    out = []
+    for t, m in all_cells():
+        if tier == "quick":
+            if not _relevant(t, m):
+                continue
+            if m.startswith("only-") and (t, m.split("-", 1)[1]) not in FIXED_KIND:
+                continue
+            out.append((t, m, 3))
+        elif (t, m) == ("SymmetricKey", "all"):
+            out.append((t, m, 5))
+        else:
+            out.append((t, m, 4 if _relevant(t, m) else 3))
+    return out
 
 
 def trie_jobs(tier):
     jobs = []
-    if tier == "quick":
-        groups = [ALPHABET[0:5], ALPHABET[5:9], ALPHABET[9:13]]
-        for t, m in cells(tier):
-            for g in groups:
-                jobs.append((t, m, 3, g))
-        return jobs, {"depth": 3, "deep": None}
-    for t, m in DEEP_CELLS:                    # the long jobs first
-        for op in ALPHABET:
-            jobs.append((t, m, 5, [op]))
-    for t, m in cells(tier):
-        if (t, m) in DEEP_CELLS:
-            continue
-        for op in ALPHABET:
-            jobs.append((t, m, 4, [op]))
-    return jobs, {"depth": 4, "deep": 5}
+    groups3 = [ALPHABET[0:5], ALPHABET[5:9], ALPHABET[9:13]]
+    for t, m, d in sorted(plan(tier), key=lambda c: -c[2]):     # the long jobs first
+        for g in (groups3 if d <= 3 else [[op] for op in ALPHABET]):
+            jobs.append((t, m, d, g))
+    return jobs
+
+
+def expected_sequences(tier):
+    return sum(sum(len(ALPHABET) ** k for k in range(1, d + 1)) for _, _, d in plan(tier))
 
 
 # ---------------------------------------------------------------- part (ii): histories
 H_OPS = (["Activate"] * 4 + ["Revoke:" + c for c in REASONS] + ["Revoke:KEY_COMPROMISE"]
          + ["Destroy"] * 2
          + ["Encrypt", "Decrypt", "Sign", "SignatureVerify", "MAC", "DeriveKey", "GetWrapped"] * 2)
-NOISE = ["Noise:Get", "Noise:GetAttributes", "Noise:Locate", "Noise:ModifyState", "Noise:ModifyName",
-         "Noise:SetState20"]
+NOISE = ["Noise:Get", "Noise:GetAttributes", "Noise:Locate", "Noise:ModifyState", "Noise:SetState20"]
+FITTING = {"SymmetricKey": ["Encrypt", "Decrypt", "GetWrapped", "MAC", "DeriveKey"],
+           "PrivateKey": ["Sign", "MAC", "DeriveKey"], "PublicKey": ["SignatureVerify", "MAC", "DeriveKey"]}
 
 
 def gen_mask():
@@ -609,6 +644,7 @@ def gen_history(draw):
     n = draw(st.integers(6, 40))
     nobj = 0
     last = 0
+    kinds = []          # object type per object index (derived keys are not tracked: indices wrap)
     for _ in range(n):
         kind = draw(st.sampled_from(["new"] * 3 + ["op"] * 20 + ["restart"] * 2 + ["noise"] * 2)
                     ) if nobj else "new"
@@ -617,13 +653,16 @@ def gen_history(draw):
             if how == "register":
                 steps.append({"do": "register", "mask": draw(gen_mask()), "otype": draw(st.sampled_from(
                     ["SymmetricKey"] * 3 + ["PrivateKey", "PublicKey"] * 2 + TYPES))})
+                kinds.append(steps[-1]["otype"])
                 nobj += 1
             elif how == "create":
                 steps.append({"do": "create", "mask": draw(gen_mask()),
                               "len": draw(st.sampled_from([128, 192, 256]))})
+                kinds.append("SymmetricKey")
                 nobj += 1
             else:
                 steps.append({"do": "keypair", "mp": draw(gen_mask()), "mu": draw(gen_mask())})
+                kinds.extend(["PrivateKey", "PublicKey"])
                 nobj += 2
             last = nobj - 1
         elif kind == "restart":
@@ -631,7 +670,13 @@ def gen_history(draw):
         else:
             obj = draw(st.sampled_from([last, last, last, draw(st.integers(0, nobj - 1))]))
             last = obj
-            op = draw(st.sampled_from(H_OPS if kind == "op" else NOISE))
+            fit = FITTING.get(kinds[obj], ["MAC", "DeriveKey"])
+            if kind == "noise":
+                op = draw(st.sampled_from(NOISE))
+            elif draw(st.integers(0, 2)) == 0:
+                op = draw(st.sampled_from(fit + ["Activate"]))
+            else:
+                op = draw(st.sampled_from(H_OPS))
             s = {"do": "op", "op": op, "obj": obj}
             if op in ("DeriveKey", "GetWrapped") and draw(st.booleans()):
                 s["aux"] = draw(st.integers(0, nobj - 1))
@@ -720,30 +765,26 @@ def replay(spec):
 def run(ctx):
     F.rsa_pair()                              # generated once in the parent, inherited by forks
     F.obj_spec("Certificate")
-    jobs, shape = trie_jobs(ctx.tier)
-    dicts = core.run_sharded("vlib.props.c04", "trie_worker", jobs)
-    nh = ctx.n(1600, 16000)
+    dicts = core.run_sharded("vlib.props.c04", "trie_worker", trie_jobs(ctx.tier))
+    nh = ctx.n(960, 12000)
     dicts += core.run_sharded("vlib.props.c04", "history_worker",
                               [(nh // N_HIST_SHARDS, core.derive_seed(ctx.seed, "c04-hist", i))
                                for i in range(N_HIST_SHARDS)])
     col = core.merged(PID, dicts)
-    ncell = len(cells(ctx.tier))
+    pl = plan(ctx.tier)
+    depths = sorted(set(d for _, _, d in pl))
     col.extra["exhaustive"] = True
     col.extra["exhaustive_part"] = (
-        "part (i) only: itertools.product of the 13-symbol alphabet, every sequence of length 1..%d "
-        "for each of %d (object type, usage mask) cells%s; part (ii) (class 'hist', %d Hypothesis "
-        "histories) is random, not exhaustive" % (
-            shape["depth"], ncell,
-            "" if not shape["deep"] else " and of length 1..%d for the cells %s" % (
-                shape["deep"], ", ".join("%s/%s" % c for c in DEEP_CELLS)), nh))
-    col.extra["i_cells"] = ["%s/%s" % c for c in cells(ctx.tier)]
-    per_cell = sum(len(ALPHABET) ** k for k in range(1, shape["depth"] + 1))
-    expect = per_cell * ncell
-    if shape["deep"]:
-        deep = sum(len(ALPHABET) ** k for k in range(1, shape["deep"] + 1))
-        expect += (deep - per_cell) * len(DEEP_CELLS)
-    col.extra["i_sequences_expected"] = expect
+        "part (i) only: itertools.product of the 13-symbol alphabet, every sequence of length "
+        "1..depth for each (object type, usage mask) cell listed under i_cells_by_depth (%s); "
+        "part (ii) (class 'hist', %d Hypothesis histories) is random, not exhaustive" % (
+            ", ".join("%d cells to depth %d" % (sum(1 for c in pl if c[2] == d), d) for d in depths),
+            nh))
+    col.extra["i_cells_by_depth"] = {str(d): ["%s/%s" % (t, m) for t, m, dd in pl if dd == d]
+                                     for d in depths}
+    expect = expected_sequences(ctx.tier)
     got = sum(v for k, v in col.classes.items() if k.startswith("len:"))
+    col.extra["i_sequences_expected"] = expect
     col.extra["i_sequences_enumerated"] = got
     if got != expect:
         raise core.HarnessError("exhaustive part incomplete: %d of %d sequences" % (got, expect))
